@@ -77,7 +77,7 @@ def main():
             na.append({"property_id": pid, "reason": "check not built yet in this tree (work in progress; the technique applies)"})
     man = {
         "version": 1,
-        "setup_cmd": "mkdir -p evidence replays && /venv/bin/python -c \"import sys; sys.path.insert(0,'/verif'); import gpmc.runner\"",
+        "setup_cmd": "mkdir -p evidence replays && /venv/bin/python tools/selftest.py",
         "hooks": {"guard": "GPYTORCH_VERIF", "enable": "none needed: pure-Python library imported from /repo's working tree (editable install); "
                   "checks observe caches/settings from outside", "baseline_off_cmd": "/verif/tools/baseline.py /repo", "source_commits": [], "add_only": True},
         "engines": [{"name": "gpmc", "path": "/verif/gpmc", "serves_properties": [c["property_id"] for c in checks],
